@@ -115,7 +115,7 @@ pub trait Shape: Flat {
     }
     /// Addresses (relative to `base`) of what the accessors hand out: fields, payload fields, container data.
     fn probe(&self, _base: usize) -> Value {
-        Value::Null
+        json!({})
     }
     fn has_default() -> bool {
         false
